@@ -24,4 +24,6 @@ def run(ctx, rep):
     rep.run(RG.rule_layout_transparent, ctx, rep, "L2")
     rep.run(RG.rule_single_entry, ctx, rep, "L3", min_sites=3)
     rep.run(RG.rule_verbatim_zones, ctx, rep, "L4")
+    rep.run(RG.rule_comments_skipped_before_every_token, ctx, rep, "L5")
+    rep.run(RF.rule_universal_newlines, ctx, rep, "L6")
     rep.run(RF.rule_locals_defined, ctx, rep, "U1", packages=("gtwrap/interface_parser",), min_functions=3)
